@@ -246,6 +246,7 @@ func rlItemAttrs(d *rlDecl) []string {
 var rlDescText = map[string][]string{
 	"one":   {"The subject of the declaration."},
 	"multi": {"The subject of the declaration,", "described on two lines."},
+	"para":  {"The subject of the declaration.", "", "A second paragraph after an empty line."},
 }
 
 // rlFieldText prints one `field` declaration.
@@ -272,6 +273,10 @@ func rlFieldText(name string, d *rlDecl, o rlOpts, indent string) string {
 		}
 	}
 	for _, l := range rlDescText[d.Desc] {
+		if l == "" {
+			body = append(body, "|")
+			continue
+		}
 		body = append(body, "| "+l)
 	}
 	item := rlItemAttrs(d)
